@@ -974,6 +974,11 @@ class Gen:
                 self.features.add("resp:binary")
             else:
                 resp["content"] = {"application/json": {}}
+            if "content" in resp and rng.random() < 0.2:
+                # several media types for one status: the first *supported* one decides reader and schema together
+                first = rng.choice([{"text/plain": {}}, {"application/xml": {"schema": {"type": "string"}}}, {"text/csv": {"schema": {"type": "string"}}}, {"application/octet-stream": {}}])
+                resp["content"] = {**first, **resp["content"]} if rng.random() < 0.7 else {**resp["content"], **first}
+                self.features.add("resp:multi_media")
             out[str(st)] = resp
         return out
 
@@ -1185,4 +1190,30 @@ def sharing_docs() -> list[tuple[str, dict]]:
         pk = pk[variant % len(pk):] + pk[:variant % len(pk)]
         d["paths"] = {x: P[x] for x in pk}
         out.append((f"sharing:{variant}", d))
+    return out
+
+
+def typing_stress_docs() -> list[tuple[str, dict]]:
+    """Documents aimed at the type checker only (no instances are derived from them): unions that combine anyOf and
+    oneOf, responses whose media types disagree, bodies / parameters of every union flavour."""
+    R = lambda n: {"$ref": f"#/components/schemas/{n}"}  # noqa: E731
+    out = []
+    for version in ("3.0.3", "3.1.0"):
+        d = base_doc(version, "Typing stress")
+        d["components"]["schemas"] = {
+            "N": _N(), "N2": _N2(), "E": {"type": "string", "enum": ["a", "b"]},
+            "AnyAndOne": {"type": "object", "properties": {
+                "mixed": {"anyOf": [{"type": "string", "format": "date"}, R("N")], "oneOf": [{"type": "string", "format": "uuid"}, {"type": "array", "items": R("N")}]},
+                "mixed2": {"anyOf": [{"type": "string", "format": "date-time"}, {"type": "array", "items": {"type": "string", "format": "date"}}], "oneOf": [R("N2"), {"type": "integer"}]},
+                "mixed3": {"anyOf": [R("E"), {"type": "boolean"}], "oneOf": [{"type": "string", "format": "date"}], "nullable": True}}, "required": ["mixed"]},
+            "Holder": {"type": "object", "properties": {"u": {"oneOf": [R("N"), R("N2"), {"type": "array", "items": {"anyOf": [R("N"), {"type": "string", "format": "uuid"}]}}]}}},
+        }
+        ok = {"description": "ok"}
+        d["paths"] = {
+            "/r1": {"get": {"operationId": "r_one", "responses": {"200": dict(ok, content={"text/plain": {}, "application/json": {"schema": R("N")}}), "201": dict(ok, content={"application/octet-stream": {}, "application/json": {"schema": {"type": "integer"}}}),
+                                                                  "202": dict(ok, content={"application/json": {"schema": R("N2")}, "text/plain": {"schema": {"type": "string"}}})}}},
+            "/r2": {"post": {"operationId": "r_two", "requestBody": {"content": {"application/json": {"schema": R("AnyAndOne")}}}, "parameters": [{"name": "q", "in": "query", "schema": {"anyOf": [{"type": "string", "format": "date"}], "oneOf": [{"type": "integer"}, R("E")]}}],
+                             "responses": {"200": dict(ok, content={"application/json": {"schema": {"anyOf": [R("N")], "oneOf": [{"type": "array", "items": R("N2")}]}}})}}},
+        }
+        out.append((f"typing:{version}", d))
     return out
